@@ -124,6 +124,10 @@ def run(ctx):
                                  failing_input=False, broken="corr:Ds.Oracle.query / theorem C09_main")
                     bad = True
                     break
+        if ans is not None and "ok" in ans and ans["ok"].get("locSpecOk") is not True and not bad:
+            ctx.mismatch("LocSpec (hypothesis of theorem C09_main) does not hold for the compiled diagram of this case", case, model=ans["ok"].get("locSpecOk"),
+                         failing_input=False, broken="hypothesis LocSpec of C09_main (Ds.Oracle.locSpecOk)")
+        ctx.dist["locSpecOk=%s" % (ans["ok"].get("locSpecOk") if ans and "ok" in ans else None)] += 1
         if ans is not None and "err" in ans and not bad:
             ctx.mismatch("model could not build the oracle", case, model=ans, failing_input=False, broken="corr:Ds.Oracle.build")
         ctx.case(case, nontrivial=(shared and len(positive_tallies) >= 3), sample=case, units=n_units, K=K, maxw=maxw)
